@@ -35,3 +35,54 @@ def float_regime_eq_hash(case, msg):
         if not (forms & {"H", "M"}):
             return False      # both hh:mm:ss forms: not this class
     return True
+
+
+def bounded_nominal_recurrence(case, msg):
+    """F4: TimeRecurrence with repetitions >= 2 and an interval with non-zero
+    years or months; the failure is a wrong number of points or a missing
+    anchor/member (never a wrong step between consecutive points)."""
+    n, d = case.meta.get("n"), case.meta.get("d", "")
+    if n is None or n < 2:
+        return False
+    t = d.split()
+    if not (t and t[0] == "DU" and (t[1] != "0" or t[2] != "0")):
+        return False
+    return ("bounded series with a nominal interval" in msg or
+            ("yields" in msg and "points" in msg) or "nominal-bounded" in msg)
+
+
+def _trunc_fields(case):
+    t = case.meta.get("t", "").split()
+    return t if len(t) == 9 else None
+
+
+def trunc_day_hourless(case, msg):
+    """F10: day designator + minute and/or second, no hour; the result matches
+    but is later than the earliest match (never earlier, never a non-match)."""
+    t = _trunc_fields(case)
+    if not t or "not the earliest matching" not in msg:
+        return False
+    h, m, s, dow, dom, doy, wk = t[:7]
+    has_day = any(x != "-" for x in (dow, dom, doy, wk))
+    if not (h == "-" and (m != "-" or s != "-") and has_day):
+        return False
+    mo = re.search(r"off by (-?[0-9/]+) s", msg)
+    return bool(mo) and "/" not in mo.group(1) and 0 < int(mo.group(1)) < 86400
+
+
+def trunc_hour24(case, msg):
+    """F8b: hour field 24 -> the stepping loop never terminates."""
+    t = _trunc_fields(case)
+    return bool(t) and t[0] == "24" and ("does not terminate" in msg or "HANG" in msg)
+
+
+def trunc_float_form(case, msg):
+    """F11: the full point is written in an hour-only / hour:minute form."""
+    t = _trunc_fields(case)
+    if not t:
+        return False
+    p = case.meta.get("p", "").split()
+    if not p:
+        return False
+    form = p[{"C": 4, "O": 3, "W": 4}[p[0]]]
+    return form in ("H", "M")
